@@ -378,6 +378,17 @@ Definition xml_read_desc (fixed : bool) (text : str) : option str :=
   | _ => if fixed then (match strip text with [] => None | s => Some s end) else Some text
   end.
 
+(* SchemaLoaderWiki._open_file: the lines of the source.  wiki_file.readlines() on a text file and
+   schema_as_string.split(LF) on a string end a line at U+000A and NOWHERE ELSE: U+0085, U+2028, U+2029,
+   VT, FF, FS, GS, RS are ordinary characters of a line (str.splitlines would also cut there).  Every
+   per-line statement of this development rests on this; the harness clause lines-split-only-at-LF
+   compares the lines the real reader sees with the LF-separated lines of the saved text. *)
+Definition open_file_lines (text : str) : list str := split_on ch_nl text.
+
+(* xml2schema._get_element_tag_value for a name element ('' = no text); [fixed] = true is the repair of
+   finding C05-F5 (names lose their outer white space, as in a MediaWiki line) *)
+Definition xml_read_name (fixed : bool) (text : str) : str := if fixed then strip text else text.
+
 (* what may stand inside [..]: DescOK without the requirements the repaired XML reader guarantees *)
 Definition desc_text_ok (d : option str) : bool :=
   match d with None => true | Some s => wiki_text_ok s end.
